@@ -175,25 +175,27 @@ def semOut (tz : Option Int) (h : Heap) (n : Nat) (e : Expr) (ρ : Env) : Out :=
 `WS exact S e`: every variable reference of `e` that sits inside an inline function body is
 bound by a parameter, by a binder inside that body, or by a variable of `S` in scope where the
 function is *defined*.  With `exact = false` the same is required of references outside function
-bodies.  `WS true (dom ρ) e` is the complement of the trigger predicate of finding F05c. -/
-def WS (exact : Bool) (S : List Name) : Expr → Bool
+bodies.  `lex` says whether the callee sees its closure only (F05c repaired): then a function body
+inherits the mode of its surroundings, and `WS true true S e` holds for every `e`.
+`WS false true (dom ρ) e` is the complement of the trigger predicate of finding F05c. -/
+def WS (lex : Bool) (exact : Bool) (S : List Name) : Expr → Bool
   | .int _ => true
   | .var x => exact || S.contains x
   | .empty => true
-  | .paren e => WS exact S e
-  | .seq a b => WS exact S a && WS exact S b
-  | .add a b => WS exact S a && WS exact S b
-  | .sub a b => WS exact S a && WS exact S b
-  | .eq a b => WS exact S a && WS exact S b
+  | .paren e => WS lex exact S e
+  | .seq a b => WS lex exact S a && WS lex exact S b
+  | .add a b => WS lex exact S a && WS lex exact S b
+  | .sub a b => WS lex exact S a && WS lex exact S b
+  | .eq a b => WS lex exact S a && WS lex exact S b
   | .dt _ _ => true
-  | .tzOf e => WS exact S e
-  | .letE x e b => WS exact S e && WS exact (x :: S) b
-  | .forE x r b => WS exact S r && WS exact (x :: S) b
-  | .someE x r b => WS exact S r && WS exact (x :: S) b
-  | .everyE x r b => WS exact S r && WS exact (x :: S) b
-  | .fn ps b => WS false (ps ++ S) b
-  | .call0 f => WS exact S f
-  | .call f a => WS exact S f && WS exact S a
+  | .tzOf e => WS lex exact S e
+  | .letE x e b => WS lex exact S e && WS lex exact (x :: S) b
+  | .forE x r b => WS lex exact S r && WS lex exact (x :: S) b
+  | .someE x r b => WS lex exact S r && WS lex exact (x :: S) b
+  | .everyE x r b => WS lex exact S r && WS lex exact (x :: S) b
+  | .fn ps b => WS lex (exact && lex) (ps ++ S) b
+  | .call0 f => WS lex exact S f
+  | .call f a => WS lex exact S f && WS lex exact S a
 
 def dom (ρ : Env) : List Name := ρ.map (·.1)
 
